@@ -1,6 +1,7 @@
 # C13 — rotation yields self-contained files and loses, repeats or reorders nothing.
 import common, schema, histgen, p_hist
-THEOREMS = ["C13_frozen", "C13_stream", "C13_empty_output", "C13_restart", "C13_header_has_all_params", "C13_nonvacuous"]
+THEOREMS = ["C13_frozen", "C13_stream", "C13_empty_output", "C13_restart", "C13_header_has_all_params", "C13_outputs_self_contained",
+            "C13_records_across_outputs", "C13_nonvacuous"]
 def gen_cases(sch, tier, rng):
     cases = []
     n = 250 if tier == "quick" else 8000
@@ -74,6 +75,7 @@ def run(ctx):
     sch = schema.load(ctx["mdl"])
     cases = gen_cases(sch, ctx["tier"], ctx["rng"])
     diffs, cases = p_hist.run_histories(ctx, cases, batch=10)
+    ctx["report"].cov["end_to_end_theorem_premises"] = p_hist.theorem_check(ctx, cases, "C13")
     del yield_cases[:]
     extra_fails = named_compressed(ctx, ctx["rng"], ctx["tier"])
     for c in yield_cases: c["oracle"] = []
@@ -85,4 +87,6 @@ def run(ctx):
         "block), parameter sets added between outputs and switched, max_block_items 0..10000. Every closed output is parsed independently "
         "(one complete document or empty; preamble holds every parameter set its blocks use); the records of all outputs in rotation order "
         "are compared with the submissions; the library's own reader is run on every output; plus rotations of NAMED outputs in the plain / gzip / xz "
-        "modes through the real exporter, each closed file decompressed and parsed independently, records in rotation order compared", related=("C12", "C01", "C02"))
+        "modes through the real exporter, each closed file decompressed and parsed independently, records in rotation order compared; and, on every "
+        "history satisfying the hypotheses of C13_records_across_outputs (evaluated by the extracted model), the records the library's reader returns "
+        "for all outputs in rotation order must equal the theorem's right-hand side", related=("C12", "C01", "C02"))
